@@ -342,6 +342,9 @@ def main(argv=None):
         tasks = [t for t in tasks if t[0] == only]
     rnd = random.Random(seed)
     rnd.shuffle(tasks)
+    if hasattr(mod, 'task_weight'):
+        # longest shapes first (scheduling only: every shape of the plan is still run)
+        tasks.sort(key=lambda t: -mod.task_weight(t))
     results = []
     ctx = mp.get_context('fork')
     budget = float(os.environ.get('VERIF_BUDGET_S', '0') or 0) or (900.0 if tier == 'quick' else 6 * 3600.0)
